@@ -20,10 +20,13 @@ RULE = (
 )
 ASSUMPTIONS = [
     "FuncADLIndexError is permitted only when the query text contains a constant index beyond the end of a tuple/list "
-    "literal (planted by the generator, detected syntactically).",
+    "literal, or a variable index into a tuple/list literal (which beta-reduction may turn into such a constant); both are "
+    "planted by the generator and detected syntactically.",
     "'Semantically intact' = whenever the original evaluates under CPython list semantics the result evaluates to the "
     "same value; unparse + compile of the result must always succeed.",
     "RecursionError on these bounded sizes counts as non-termination.",
+    "Values are compared under a *total* semantics: a failing literal projection yields an absorbing ERR value instead of "
+    "raising, so a rewrite that turns an erroring odd projection into an ordinary value (or back) is visible.",
 ]
 BUDGET = {"quick": (8, 800), "thorough": (16, 12000)}
 
@@ -43,6 +46,10 @@ def _odd_selectors(tree):
     n_odd = 0
     planted = False
     for n in ast.walk(tree):
+        if isinstance(n, ast.Subscript) and isinstance(n.value, (ast.Tuple, ast.List)) and not isinstance(n.slice, (ast.Constant, ast.Slice)) \
+                and not (isinstance(n.slice, ast.UnaryOp) and isinstance(n.slice.operand, ast.Constant)):
+            # a variable index may become an out-of-range constant after beta reduction
+            planted = True
         if isinstance(n, ast.Subscript) and isinstance(n.value, (ast.Tuple, ast.List, ast.Dict)):
             s = n.slice
             if isinstance(n.value, ast.Dict):
@@ -77,7 +84,7 @@ def check(case) -> Result:
     if n_odd:
         r.labels.append("odd-selector")
     try:
-        tree, out, expect = c02.semantic_check(case, r, allow_index_error=True)
+        tree, out, expect = c02.semantic_check(case, r, allow_index_error=True, total=True)
     except RecursionError:
         return r.fail(f"simplifier did not terminate (RecursionError) on {case['src']}")
     c02.shape_labels(tree, r)
@@ -101,9 +108,10 @@ def check(case) -> Result:
         compile(text, "<c18>", "eval")
     except Exception as e:
         return r.fail(f"unparsed result does not compile ({type(e).__name__}: {e}): {text}")
-    return c02.compare_values(case, r, tree, out, expect)
+    return c02.compare_values(case, r, tree, out, expect, total=True)
 
 
 def selftest():
     t = ast.parse("((a, b)[5], [a][-1], (a, b)[0:1], {'k': a}['z'], {'k': a}.z, (a, b)[i], (a, b)[1])", mode="eval").body
     assert _odd_selectors(t) == (6, True), _odd_selectors(t)
+    assert _odd_selectors(ast.parse("((a, b)[-1], [a][0:1], {'k': a}.z)", mode="eval").body) == (3, False)
